@@ -1454,7 +1454,7 @@ fn judge(o: &mut Oracle, h: &Handled, col: &Collected, in_reload_window: bool, t
             }
             if !o.tainted.contains(&(fam, ih)) {
                 if seeders as i64 != view.seeders as i64 || leechers as i64 != view.leechers as i64 {
-                    o.fail(&["C01", "C03"], "announce-counts", "sys-announce-counts", format!("announce from {} port {}: reply seeders/leechers {}/{} but reference {}/{}", src, port, seeders, leechers, view.seeders, view.leechers));
+                    o.fail(&["C01", "C03", "C10"], "announce-counts", "sys-announce-counts", format!("announce from {} port {}: reply seeders/leechers {}/{} but reference {}/{}", src, port, seeders, leechers, view.seeders, view.leechers));
                     return;
                 }
                 let limit = limit_of(Some(want as i64), scn.max_response_peers);
@@ -1517,7 +1517,7 @@ fn judge(o: &mut Oracle, h: &Handled, col: &Collected, in_reload_window: bool, t
                 }
                 let (ms, ml) = o.model.scrape(fam, ih);
                 if s as i64 != ms as i64 || l as i64 != ml as i64 {
-                    o.fail(&["C06", "C01"], "scrape-lists-first-max-torrents", "sys-scrape-counts", format!("scrape entry {} (torrent byte {}): seeders/leechers {}/{} but reference {}/{} - entries must follow request order", i, ih[1], s, l, ms, ml));
+                    o.fail(&["C06", "C01", "C10"], "scrape-lists-first-max-torrents", "sys-scrape-counts", format!("scrape entry {} (torrent byte {}): seeders/leechers {}/{} but reference {}/{} - entries must follow request order", i, ih[1], s, l, ms, ml));
                     return;
                 }
             }
